@@ -18,7 +18,8 @@ RULE = ('Hypothesis draws the chain length (2..6), local dimensions (2..3; per-s
         'Oracles: (1) one step equals the dense product of even/odd-bond matrix exponentials assembled by the harness from S, L, '
         'M with the scheme\'s published coefficients (Lie, Strang, Yoshida, 17-stage Kahan-Li); (2) independently, the measured '
         'convergence order against scipy.linalg.expm(T A) is at least 0.5 / 1.5 / 3.0 / 4.7; (3) skew-Hermitian generators '
-        'preserve the 2-norm; (4) normalisation returns unit-norm states; (5) list length; component arguments keep their values. '
+        'preserve the 2-norm; (4) normalisation returns unit-norm states -- also under an active rank cap (separate sub-check, no value '
+        'comparison there); (5) list length; component arguments keep their values (real, complex or integer-typed). '
         'Non-trivial: inhomogeneous lists, complex data, even chain length, or interaction rank 2.')
 ASSUMPTIONS = [
     'oracle: scipy.linalg.expm of dense even/odd generators built by the harness; published Yoshida / Kahan-Li coefficients',
@@ -45,14 +46,19 @@ def split_case(draw):
             'rank': draw(st.sampled_from([1, 1, 2])), 'two_d': draw(st.booleans()), 'seed': draw(gen.SEED),
             'hnorm': draw(st.sampled_from([0.05, 0.1, 0.2, 0.4])), 'steps': draw(st.integers(1, 3)),
             'scheme': draw(st.sampled_from(['lie', 'strang', 'yoshida', 'kahan_li'])),
-            'normalize': draw(st.sampled_from([0, 0, 2])) if klass != 'stochastic' else draw(st.sampled_from([1, 1, 0]))}
+            'normalize': draw(st.sampled_from([0, 0, 2])) if klass != 'stochastic' else draw(st.sampled_from([1, 1, 0])),
+            'int_components': draw(st.sampled_from([False, False, False, True]))}
 
 
 def components(c, rng):
     dims, cplx, rk = c['dims'], c['cplx'], c['rank']
     d = len(dims)
 
+    intc = c.get('int_components') and c['klass'] == 'generic' and not cplx
+
     def rm(n):
+        if intc:
+            return rng.integers(-1, 2, (n, n)).astype(np.int64)     # integer-typed components (ladder operators, ...)
         return build.rand_array(rng, (n, n), cplx)
 
     def herm(n):
@@ -160,8 +166,13 @@ def body_structure(c):
     Ae, Ao = assemble(c, Sl, Ll, Ml)
     A = Ae + Ao
     nrm = max(np.linalg.norm(A, 2), 1e-12)
-    h = 1.0
-    scale = c['hnorm'] / nrm            # fold the scaling into the components: ||h A|| = hnorm with h = 1
+    intc = c.get('int_components') and c['klass'] == 'generic' and not c['cplx']
+    if intc:
+        h = c['hnorm'] / nrm            # integer-typed components are passed as they are; the step size carries the scale
+        scale = 1
+    else:
+        h = 1.0
+        scale = c['hnorm'] / nrm        # fold the scaling into the components: ||h A|| = hnorm with h = 1
     Ae, Ao = Ae * scale, Ao * scale
     args = lib_args(c, Sl, Ll, Ml, scale)
     r = [1] + [2] * (d - 1) + [1]
@@ -206,6 +217,47 @@ def body_structure(c):
         lab.add('even_length')
     if c['two_d'] and c['rank'] == 1:
         lab.add('2d_coupling')
+    if intc:
+        lab.add('int_components')
+    return lab
+
+
+@st.composite
+def trunc_case(draw):
+    c = draw(split_case())
+    c['max_rank'] = draw(st.sampled_from([1, 1, 2]))
+    c['normalize'] = draw(st.sampled_from([2, 2, 1])) if c['klass'] == 'stochastic' else 2
+    c['steps'] = draw(st.integers(1, 3))
+    c['hnorm'] = draw(st.sampled_from([0.2, 0.4, 1.0]))
+    return c
+
+
+def body_trunc(c):
+    """with an active rank cap the values are not comparable, but normalisation must still return unit-norm states"""
+    rng = np.random.default_rng(c['seed'])
+    dims = c['dims']
+    d = len(dims)
+    Sl, Ll, Ml = components(c, rng)
+    Ae, Ao = assemble(c, Sl, Ll, Ml)
+    nrm = max(np.linalg.norm(Ae + Ao, 2), 1e-12)
+    args = lib_args(c, Sl, Ll, Ml, c['hnorm'] / nrm)
+    r = [1] + [2] * (d - 1) + [1]
+    pos = c['klass'] == 'stochastic'
+    x0 = TT([build.rand_array(rng, (r[i], dims[i], 1, r[i + 1]), c['cplx'], 'nonneg' if pos else 'normal') for i in range(d)])
+    f = {'lie': ode.lie_splitting, 'strang': ode.strang_splitting, 'yoshida': ode.yoshida_splitting, 'kahan_li': ode.kahan_li_splitting}[c['scheme']]
+    a = tuple([x.copy() for x in arg] if isinstance(arg, list) else arg.copy() for arg in args)
+    p = c['normalize']
+    sol = f(a[0], a[1], a[2], a[3], x0, 1.0, c['steps'], max_rank=c['max_rank'], normalize=p)
+    require(isinstance(sol, list) and len(sol) == c['steps'] + 1, 'length', '%d states for %d steps' % (len(sol), c['steps']))
+    lab = {c['scheme'], 'truncating', 'normalize%d' % p, 'hom' if c['hom'] else 'inhom'}
+    for k in range(1, c['steps'] + 1):
+        require_consistent(sol[k], 'consistent')
+        require(max(sol[k].ranks) <= c['max_rank'], 'rank_cap', 'ranks %s exceed max_rank %d' % (sol[k].ranks, c['max_rank']))
+        v = dense.matrix(sol[k].cores).reshape(-1)
+        nv = np.linalg.norm(v) if p == 2 else abs(np.sum(v))
+        require(abs(nv - 1) <= 1e-9, 'unit_norm', '%s with max_rank=%d, normalize=%d: state %d has norm %.12f' % (c['scheme'], c['max_rank'], p, k, nv))
+    if c['cplx']:
+        lab.add('complex')
     return lab
 
 
@@ -265,7 +317,9 @@ def nt(labels):
 SUBCHECKS = [
     Sub('structure', split_case(), body_structure, nt, quick=150, thorough=1500, shards_quick=8, budget_quick=120,
         classes=['lie', 'strang', 'yoshida', 'kahan_li', 'generic', 'skew', 'stochastic', 'hom', 'inhom', 'complex', 'even_length', 'rank2',
-                 '2d_coupling', 'normalize1', 'normalize2']),
+                 '2d_coupling', 'normalize1', 'normalize2', 'int_components']),
+    Sub('normalised_truncated', trunc_case(), body_trunc, lambda l: True, quick=60, thorough=600, shards_quick=4, budget_quick=120,
+        classes=['lie', 'strang', 'yoshida', 'kahan_li', 'normalize1', 'normalize2']),
     Sub('order', order_case(), body_order, nt, quick=60, thorough=600, shards_quick=8, budget_quick=120,
         classes=['lie', 'strang', 'yoshida', 'kahan_li', 'order_measured', 'inhom', 'complex']),
 ]
